@@ -418,6 +418,7 @@ class Analyzer:
         self.lambda_nodes = {}  # id(Lambda node) -> node                             } side tables of the callable descriptors
         self.partials = {}  # id(partial(...) call node) -> (callables, bound, keywords) } carried in AV.fn
         self.recmethods = {}  # id(Attribute node) -> (record value, method name)       }
+        self.boundmethods = {}  # id(Attribute node) -> (receiver value, method name): `c.set_output` used as a value
         self.class_methods = {}
         for (rel, q), fi in repo.funcs.items():
             if fi.cls and q.count(".") == 1:
@@ -994,7 +995,12 @@ class FuncAnalysis:
                     tags.add((p, part))
             else:
                 tags.add((p, part))
-        return AV(tags, None, base.g, base.r, base.elems)
+        out = AV(tags, None, base.g, base.r, base.elems)
+        if base.any_tags() and a not in ("nodes", "edges", "pred", "succ", "adj", "_node", "_adj", "_pred", "_succ", "degree", "in_degree", "out_degree"):
+            # `c.set_output` / `g.add_edge` taken as a value (a bound method): calling the value later is calling the method on `base`
+            self.an.boundmethods[id(n)] = (base, a)
+            out = out.with_fn(out.fn | {("boundmethod", id(n))})
+        return out
 
     def ex_Subscript(self, n):
         base = self.ev(n.value)
@@ -1215,12 +1221,21 @@ class FuncAnalysis:
                 return self.call_record_method(n, fav, "__call__", argav, kwav)  # an instance of a helper class that defines __call__
             if fav is not None and fav.fn:
                 return self.call_fn(n, fav.fn, argav, kwav)
+            if fav is not None:
+                held = {t[0] for t in flatten_record(fav).any_tags() if t[1] in VIOLATING_PARTS}
+                if held:
+                    self.s.unknown_calls.append({"line": n.lineno, "text": norm(n)[:120], "params": sorted(held), "why": f"call through the local name {f.id}, a value that aliases (or holds) parameter(s) {sorted(held)} and is not a callable the analysis can follow"})
             return self.call_unknown(n, f.id, argav, kwav)
         fav = self.ev(f)
         if fav.kind == "record" and fav.cls is not None and any(self.find_method(a_[0], a_[1], "__call__") is not None for a_ in alts_of(fav)):
             return self.call_record_method(n, fav, "__call__", argav, kwav)
         if fav.fn:
             return self.call_fn(n, fav.fn, argav, kwav)
+        held = {t[0] for t in flatten_record(fav).any_tags() if t[1] in VIOLATING_PARTS}
+        if held:
+            # the callee is a value that is (part of) a parameter's state, or holds it, and is none of the callables the analysis
+            # follows: what the call does to that state is unknown
+            self.s.unknown_calls.append({"line": n.lineno, "text": norm(n)[:120], "params": sorted(held), "why": f"call through a value that aliases (or holds) parameter(s) {sorted(held)} and is not a callable the analysis can follow"})
         return self.call_unknown(n, norm(f), argav, kwav)
 
     def call_fn(self, n, fn, argav, kwav, depth=0):
@@ -1255,6 +1270,9 @@ class FuncAnalysis:
             elif d[0] == "recmethod":
                 base, attr = self.an.recmethods[d[1]]
                 av = self.call_record_method(n, base, attr, argav, kwav)
+            elif d[0] == "boundmethod":
+                base, attr = self.an.boundmethods[d[1]]
+                av = self.call_method(n, base, attr, argav, kwav)
             else:
                 av = self.call_unknown(n, f"<{d[0]}>", argav, kwav)
             out = av if out is None else out.join(av)
